@@ -320,7 +320,7 @@ Expected(T, ms, q) ==
        [] q.w = "hex.has_reading" -> BoolV(HexReading(ms, js, q.n, -1).t # "n")
        [] q.w = "hex.candles" ->      \* Hexital.candles(timeframe): that manager's list, else the default
             ListV([i \in 1..Len(ms[MaxI(q.j, 1)]) |-> IntV(ms[MaxI(q.j, 1)][i].ts)])
-       [] q.w = "hex.timeframes" -> IntV(Cardinality(mgs))
+       [] q.w = "hex.timeframes" -> IntV(Cardinality({T.mg[x].tf : x \in mgs}))   \* distinct timeframes
        [] q.w = "hex.reading_as_list" ->
             IF q.j = 0 THEN ListV(<<>>) ELSE ListV([i \in 1..n |-> GetRef(cs[i], q.n)])
        [] OTHER -> [t |-> "skip"]
